@@ -1,6 +1,7 @@
 import PyGam.Proofs.Dists
 import PyGam.Model.DistState
 import PyGam.Gen.Tables
+import PyGam.Gen.Formulas
 /-!
 # C06 — each family's variance function, deviance, log-density, scale and sampler agree
 
@@ -291,5 +292,76 @@ example : (0:ℝ) < 1/4 ∧ (5:ℝ) ≠ 0 := by norm_num
 /-- the distribution registry of the source is the one modelled by `Family` -/
 theorem gen_distribution_names :
     Gen.distributionNames = some ["binomial", "gamma", "inv_gauss", "normal", "poisson"] := by decide
+
+/-! ### tie to the source by translation of the formulas (`gen_formula_*`)
+
+`Gen/Formulas.lean` is regenerated on every run from the abstract syntax tree of `pygam/distributions.py`: the
+undecorated bodies of `V` and `deviance` of the five distribution classes registered in `DISTRIBUTIONS`, the wrappers
+`multiply_weights` / `divide_weights`, the decorator list of every method, and `Distribution.phi` (`np.sum` ↦ `sumTo n`,
+`len(mu)` ↦ `natTo n`, `self.V` a function parameter).  `ylogydu` (masked assignment, not straight-line) is the
+hand-written `PyGam.ylogydu`.  Each theorem states that the generated definition IS the model definition, for every
+type carrying the notation classes; all hold by `rfl` / `decide`. -/
+section gen_formulas
+set_option linter.unusedSectionVars false
+variable {α : Type} [Zero α] [One α] [Add α] [Sub α] [Mul α] [Div α] [Neg α] [LE α] [LT α] [DecidableLE α] [DecidableLT α]
+  [HasLogSqrt α]
+
+/-- `NormalDist.V` (body) is `varFn .normal` -/
+theorem gen_formula_V_normal : (Gen.V_normal : α → α → α) = varFn .normal := rfl
+/-- `BinomialDist.V` (body) is `varFn .binomial` -/
+theorem gen_formula_V_binomial : (Gen.V_binomial : α → α → α) = varFn .binomial := rfl
+/-- `PoissonDist.V` (body) is `varFn .poisson` -/
+theorem gen_formula_V_poisson : (Gen.V_poisson : α → α → α) = varFn .poisson := rfl
+/-- `GammaDist.V` (body) is `varFn .gamma` -/
+theorem gen_formula_V_gamma : (Gen.V_gamma : α → α → α) = varFn .gamma := rfl
+/-- `InvGaussDist.V` (body) is `varFn .invGauss` -/
+theorem gen_formula_V_invGauss : (Gen.V_invGauss : α → α → α) = varFn .invGauss := rfl
+
+/-- `NormalDist.deviance` (body): `unitDeviance .normal`, divided by the scale when `scaled` -/
+theorem gen_formula_deviance_normal (levels scale y mu : α) (scaled : Bool) :
+    Gen.deviance_normal levels scale y mu scaled
+      = if scaled then unitDeviance .normal levels y mu / scale else unitDeviance .normal levels y mu := rfl
+/-- `BinomialDist.deviance` (body): `unitDeviance .binomial`, divided by the scale when `scaled` -/
+theorem gen_formula_deviance_binomial (levels scale y mu : α) (scaled : Bool) :
+    Gen.deviance_binomial levels scale y mu scaled
+      = if scaled then unitDeviance .binomial levels y mu / scale else unitDeviance .binomial levels y mu := rfl
+/-- `PoissonDist.deviance` (body): `unitDeviance .poisson`, divided by the scale when `scaled` -/
+theorem gen_formula_deviance_poisson (levels scale y mu : α) (scaled : Bool) :
+    Gen.deviance_poisson levels scale y mu scaled
+      = if scaled then unitDeviance .poisson levels y mu / scale else unitDeviance .poisson levels y mu := rfl
+/-- `GammaDist.deviance` (body): `unitDeviance .gamma`, divided by the scale when `scaled` -/
+theorem gen_formula_deviance_gamma (levels scale y mu : α) (scaled : Bool) :
+    Gen.deviance_gamma levels scale y mu scaled
+      = if scaled then unitDeviance .gamma levels y mu / scale else unitDeviance .gamma levels y mu := rfl
+/-- `InvGaussDist.deviance` (body): `unitDeviance .invGauss`, divided by the scale when `scaled` -/
+theorem gen_formula_deviance_invGauss (levels scale y mu : α) (scaled : Bool) :
+    Gen.deviance_invGauss levels scale y mu scaled
+      = if scaled then unitDeviance .invGauss levels y mu / scale else unitDeviance .invGauss levels y mu := rfl
+
+/-- the model's `deviance` is the body wrapped by the source's `multiply_weights` (`… * weights`) -/
+theorem gen_formula_multiply_weights (fam : Family) (levels scale w y mu : α) (scaled : Bool) :
+    deviance fam levels scale scaled w y mu
+      = Gen.multiply_weights (if scaled then unitDeviance fam levels y mu / scale else unitDeviance fam levels y mu) w := rfl
+
+/-- the model's `varFnW` is the body wrapped by the source's `divide_weights` (`… / weights`) -/
+theorem gen_formula_divide_weights (fam : Family) (levels w mu : α) :
+    varFnW fam levels w mu = Gen.divide_weights (varFn fam levels mu) w := rfl
+
+/-- every `V` is decorated with `divide_weights` and every `deviance` with `multiply_weights`, and with nothing else -/
+theorem gen_formula_decorators :
+    Gen.methodDecorators =
+      [("V_normal", ["divide_weights"]), ("V_binomial", ["divide_weights"]), ("V_poisson", ["divide_weights"]),
+       ("V_gamma", ["divide_weights"]), ("V_invGauss", ["divide_weights"]),
+       ("deviance_normal", ["multiply_weights"]), ("deviance_binomial", ["multiply_weights"]),
+       ("deviance_poisson", ["multiply_weights"]), ("deviance_gamma", ["multiply_weights"]),
+       ("deviance_invGauss", ["multiply_weights"])] := by decide
+
+/-- `Distribution.phi` with `self.V` the family's variance function is the model's `phi`: the stored scale when it is
+known, the weighted Pearson statistic over `len(mu) - edof` otherwise -/
+theorem gen_formula_phi (fam : Family) (levels s edof : α) (n : Nat) (w y mu : Nat → α) :
+    Gen.phi (varFn fam levels) true s n y mu edof w = phi (some s) fam levels n edof w y mu
+    ∧ Gen.phi (varFn fam levels) false s n y mu edof w = phi none fam levels n edof w y mu := ⟨rfl, rfl⟩
+
+end gen_formulas
 
 end PyGam.C06
